@@ -53,6 +53,9 @@ COMMENTS = ["", " ", "   ", "soma", " leading blank", "trailing blank  ", "# has
             "CREATED-BY tool 1.2", "née à Zürich µm", "神经元 形态", "a#b", "\tTAB", "ORIGINAL_SOURCE Neurolucida",
             "scale 1.0 1.0 1.0", "-", "#",
             # characters that str.splitlines() treats as line ends but text files do not: they stay inside the line
+            # look-alikes of the column-header line (only the exact lower-case, single-blank spelling is format metadata)
+            "ID,Type,X,Y,Z,R,PID", "Id\tType\tX\tY\tZ\tR\tPid", "id  type  x  y  z  r  pid", "ID TYPE X Y Z R PID", "id;type;x;y;z;r;pid",
+            "SCALE 1.0 1.0 1.0", "source: elsewhere.swc",
             "form\x0cfeed", "vt\x0btab", "nel\x85next", "ls\u2028sep", "ps\u2029sep", "fs\x1cgs\x1drs\x1eend"]
 SOURCES = ["", "", "/data/neuron 1.swc", "nœud.swc", "Unknown"]
 
@@ -113,6 +116,8 @@ def generate(rng: Prng, tier: str) -> dict:
                              "source": rh.choice(["path", "path", "string", "bytes"])}
         ph = rng.stream(f"preamble{g}")
         for rd in reads:
+            if ph.chance(0.15):
+                rd["fix_roots"] = ph.choice(["somas", "nearest", False])  # root repair has nothing to repair on a tree
             if rd["source"] != "path" and ph.chance(0.2):
                 # the caller hands in a stream it has already read a preamble from (position != 0)
                 rd["preamble"] = ph.choice(["BUNDLE entry 1 of 1\n", "# bundle entry 1 of 1\n", "\x00\x01HDR", "7 lines\n",
@@ -347,7 +352,19 @@ def execute(program: dict) -> dict:
                     world.write_plans[rel] = StreamPlan.from_json(wr.get("wstream"))
                     # the path as a str or, in a third of the writes, as a pathlib.Path (any os.PathLike)
                     target = world.path(rel) if (gi + len(text_so_far)) % 3 else pathlib.Path(world.path(rel))
-                    ret = tree.to_swc(target, **kwargs)
+                    if (gi + n) % 5 == 0:
+                        # a bare file name, relative to the current directory (no directory part at all)
+                        import os as _os
+
+                        cwd = _os.getcwd()
+                        _os.chdir(_os.path.dirname(world.path(rel)))
+                        try:
+                            ret = tree.to_swc(_os.path.basename(rel), **kwargs)
+                        finally:
+                            _os.chdir(cwd)
+                        world.probe("c01.bare_relative_file_name")
+                    else:
+                        ret = tree.to_swc(target, **kwargs)
                     data = world.get(rel)
                     if ret is not None:
                         violation = {"tag": "write_result", "detail": "to_swc(fname) returned a value"}
@@ -374,7 +391,7 @@ def execute(program: dict) -> dict:
                 else:
                     src = open_stream(world, src_kind, text, data, plan, rd.get("preamble"))
                 try:
-                    got = Tree.from_swc(src)
+                    got = Tree.from_swc(src, fix_roots=rd["fix_roots"]) if "fix_roots" in rd else Tree.from_swc(src)
                 except Exception as e:  # noqa: BLE001
                     cause = e.__cause__
                     violation = {"tag": "read_raised",
